@@ -422,4 +422,4 @@ TRUSTED = [
 ]
 
 if __name__ == "__main__":
-    sys.exit(run_property("C20", "other", units(), EXPLANATION, TRUSTED, min_obligations=300))
+    sys.exit(run_property("C20", "other", units(), EXPLANATION, TRUSTED, min_obligations=300, ns_pass=False))   # pure C summaries: no generic sample extent to vary
